@@ -137,4 +137,127 @@ theorem rmtree_rmProg (rank : Name → Nat) (p : Path) : RmProg (rmtree rank fal
     | fd i => exact (rmSafeFd_rmProg rank 5 p i).bind fun _ => .rmdir _ _ fun r => by simpa using RmProg.ret ()
     | _ => simpa using RmProg.ret ()
 
+
+/-! ### Removal is monotone: every name is either gone or exactly as before -/
+
+def Mono (fs fs1 : FS) : Prop := ∀ q, fs1.get q = none ∨ fs1.get q = fs.get q
+
+theorem Mono.refl (fs : FS) : Mono fs fs := fun _ => Or.inr rfl
+
+theorem Mono.trans {a b c : FS} (h1 : Mono a b) (h2 : Mono b c) : Mono a c := by
+  intro q
+  rcases h2 q with h | h
+  · exact Or.inl h
+  · rcases h1 q with h' | h'
+    · exact Or.inl (by rw [h, h'])
+    · exact Or.inr (by rw [h, h'])
+
+theorem rm_op_mono {fs : FS} {o : Op} (ho : IsObs o ∨ (∃ p, o = .unlink p) ∨ (∃ p, o = .rmdir p)) :
+    Mono fs (apply o fs).2 := by
+  intro q
+  rcases ho with ho | ⟨p, rfl⟩ | ⟨p, rfl⟩
+  · rw [observer_noop o fs ho]; exact Or.inr rfl
+  · rcases unlink_spec p fs with ⟨e, _⟩ | ⟨_, _, _, _, _, _, hg⟩
+    · rw [e]; exact Or.inr rfl
+    · rw [hg]; unfold getUpd
+      by_cases h0 : q = []
+      · subst h0; simp
+      · rw [if_neg h0]; split
+        · exact Or.inl rfl
+        · exact Or.inr rfl
+  · rcases rmdir_spec p fs with ⟨e, _⟩ | ⟨_, _, _, _, _, _, _, hg⟩
+    · rw [e]; exact Or.inr rfl
+    · rw [hg]; unfold getUpd
+      by_cases h0 : q = []
+      · subst h0; simp
+      · rw [if_neg h0]; split
+        · exact Or.inl rfl
+        · exact Or.inr rfl
+
+theorem rmProg_mono {α : Type} {p : Prog α} (hp : RmProg p) : ∀ fs, Mono fs (run p fs).2 := by
+  induction hp with
+  | ret a => intro fs; exact Mono.refl fs
+  | obs o k ho _ ih => intro fs; exact (rm_op_mono (Or.inl ho)).trans (ih _ _)
+  | unlink p k _ ih => intro fs; exact (rm_op_mono (Or.inr (Or.inl ⟨p, rfl⟩))).trans (ih _ _)
+  | rmdir p k _ ih => intro fs; exact (rm_op_mono (Or.inr (Or.inr ⟨p, rfl⟩))).trans (ih _ _)
+
+/-- the tree shape (`Inv.up`) survives removals -/
+def Up (fs : FS) : Prop := ∀ p, p ≠ [] → (fs.get p).isSome = true → ∃ j, fs.get (parent p) = some (.dir j)
+
+theorem rm_op_up {fs : FS} {o : Op} (ho : IsObs o ∨ (∃ p, o = .unlink p) ∨ (∃ p, o = .rmdir p)) (h : Up fs) :
+    Up (apply o fs).2 := by
+  rcases ho with ho | ⟨p, rfl⟩ | ⟨p, rfl⟩
+  · rw [observer_noop o fs ho]; exact h
+  · rcases unlink_spec p fs with ⟨e, _⟩ | ⟨_, _, hp, _, _, _, hg⟩
+    · rw [e]; exact h
+    · exact up_remove h hg (file_no_child h hp)
+  · rcases rmdir_spec p fs with ⟨e, _⟩ | ⟨_, _, _, hc, _, _, _, hg⟩
+    · rw [e]; exact h
+    · exact up_remove h hg (fun q hq hpq => children_empty hc hq hpq)
+
+theorem rmProg_up {α : Type} {p : Prog α} (hp : RmProg p) : ∀ fs, Up fs → Up (run p fs).2 := by
+  induction hp with
+  | ret a => intro fs h; exact h
+  | obs o k ho _ ih => intro fs h; exact ih _ _ (rm_op_up (Or.inl ho) h)
+  | unlink p k _ ih => intro fs h; exact ih _ _ (rm_op_up (Or.inr (Or.inl ⟨p, rfl⟩)) h)
+  | rmdir p k _ ih => intro fs h; exact ih _ _ (rm_op_up (Or.inr (Or.inr ⟨p, rfl⟩)) h)
+
+/-! ### Directory listings are complete -/
+
+def flagOf : Node → Bool
+  | .dir _ => true
+  | .file _ _ => false
+
+theorem childrenOf_complete {p : Path} {n : Name} {nd : Node} {l : List (Path × Node)}
+    (h : lookup (p ++ [n]) l = some nd) : (n, flagOf nd) ∈ childrenOf p l := by
+  induction l with
+  | nil => cases h
+  | cons x r ih =>
+    obtain ⟨q', nd'⟩ := x
+    unfold lookup at h
+    unfold childrenOf
+    by_cases hq : q' = p ++ [n]
+    · subst hq
+      simp only [if_true] at h
+      cases h
+      simp [flagOf]
+      cases nd <;> simp
+    · rw [if_neg hq] at h
+      have := ih h
+      split
+      · split
+        · exact List.mem_cons_of_mem _ this
+        · exact this
+      · exact this
+
+theorem children_complete {fs : FS} {p : Path} {n : Name} {nd : Node} (h : fs.get (p ++ [n]) = some nd) :
+    (n, flagOf nd) ∈ fs.children p := by
+  unfold FS.get at h
+  rw [if_neg (by simp)] at h
+  exact childrenOf_complete h
+
+theorem mem_insertRank {rank : Name → Nat} {x y : Name × Bool} {l : List (Name × Bool)} :
+    y ∈ insertRank rank x l ↔ y = x ∨ y ∈ l := by
+  induction l with
+  | nil => simp [insertRank]
+  | cons z r ih =>
+    unfold insertRank
+    split
+    · simp
+    · simp [ih]; constructor
+      · rintro (h | h | h)
+        · exact Or.inr (Or.inl h)
+        · exact Or.inl h
+        · exact Or.inr (Or.inr h)
+      · rintro (h | h | h)
+        · exact Or.inr (Or.inl h)
+        · exact Or.inl h
+        · exact Or.inr (Or.inr h)
+
+theorem mem_sortRank {rank : Name → Nat} {y : Name × Bool} {l : List (Name × Bool)} :
+    y ∈ sortRank rank l ↔ y ∈ l := by
+  induction l with
+  | nil => simp [sortRank]
+  | cons z r ih => simp [sortRank, mem_insertRank, ih]
+
 end JoblibModel.Store
